@@ -317,6 +317,78 @@ def stage_system_names(rep, rng, thorough):
     return bad
 
 
+def stage_system_location(rep, rng, thorough):
+    """The LOCATION of the source and build directories carries the special character (the value of srcdir, which the
+    Make backend writes once as `srcdir := ...` and then uses as $(srcdir) in rule headers and inside quotes in recipes):
+    plain file names below a directory such as `/.../lo c/src`. Make: everything builds, a second build is a no-op,
+    touching a source rebuilds, install + uninstall work; Ninja (text level): every input of the compile edges evaluates
+    to the real path of the source."""
+    from . import project
+    bad = 0
+    chars = [' ', '#'] + (['$', ':', "'", '&', '(', ',', '%', '=', ';', '|', '*', '?', '[', '"', '\t', '@', '+', '{'] if thorough else rng.sample(['$', ':', "'", '&', ','], 1))
+    for c in chars:
+        root = common.scratch('c04loc')
+        try:
+            base = os.path.join(root, 'lo' + c + 'c')
+            src, bld = os.path.join(base, 'src'), os.path.join(base, 'bld')
+            os.makedirs(src)
+            tree = {'build.bfg': "project('p')\ninc = header_directory('inc', include='*.h')\n"
+                                 "prog = executable('prog', files=['main.c', 'sub/f.c'], includes=[inc])\ninstall(prog, inc)\n",
+                    'main.c': '#include "h.h"\nint f(void);\nint main(void){return f();}\n', 'sub/f.c': 'int f(void){return 0;}\n',
+                    'inc/h.h': '/* h */\n'}
+            project.write_tree(src, tree)
+            rep.case('loc:' + c, True)
+            rep.count('system:location char %r' % c)
+            # ---- Ninja, text level
+            bn = bld + '_n'
+            rc, out = project.configure(src, bn, 'ninja')
+            if rc == 0:
+                try:
+                    nin = ninjaparse.parse(project.read(bn, 'build.ninja'))
+                    for o, f in (('prog.int/main.o', 'main.c'), ('prog.int/sub/f.o', 'sub/f.c')):
+                        e = nin.edge_for(o)
+                        if e is None or e['inputs'] != [os.path.join(src, f)]:
+                            bad += rep.fail('Ninja: with the source directory at %r the compile edge of %s has inputs %r' % (src, o, e and e['inputs']),
+                                            {'kind': 'location', 'backend': 'ninja', 'srcdir': src, 'edge': o, 'inputs': e and e['inputs']})
+                except ninjaparse.NinjaError as ex:
+                    bad += rep.fail('Ninja: build.ninja for a source directory at %r cannot be read: %s' % (src, ex),
+                                    {'kind': 'location', 'backend': 'ninja', 'srcdir': src}, found_input=False)
+            # ---- Make, for real
+            rc, out = project.configure(src, bld, 'make', ['--prefix=' + os.path.join(base, 'pfx')])
+            if rc != 0:
+                rep.count('system:location configure_rejects')
+                continue
+            why, mout = None, ''
+            rcm, recs, mout = project.make(bld, ['all'], stub_tools=True)
+            objs = ['prog.int/main.o', 'prog.int/sub/f.o']
+            if rcm != 0 or any(not os.path.exists(os.path.join(bld, o)) for o in objs):
+                why = 'the project does not build'
+            if why is None:
+                rcm, recs2, mout = project.make(bld, ['all'], stub_tools=True)
+                if rcm != 0 or recs2:
+                    why = 'a second build is not a no-op'
+            if why is None:
+                import time
+                time.sleep(0.02)
+                os.utime(os.path.join(src, 'sub/f.c'), None)
+                rcm, recs3, mout = project.make(bld, ['all'], stub_tools=True)
+                if rcm != 0 or not any(r['argv'] and os.path.join(src, 'sub/f.c') in r['argv'] for r in recs3):
+                    why = 'touching a source does not recompile it'
+            if why is None:
+                rcm, _, mout = project.make(bld, ['install'], stub_tools=True)
+                if rcm != 0 or not os.path.exists(os.path.join(base, 'pfx', 'include', 'h.h')):
+                    why = 'install does not place the header below the prefix'
+            if why:
+                special = [ch for ch in src if ch in " \t:'%;|"]      # the characters of the recorded finding
+                bad += rep.fail('Make: with the source directory at %r %s: %s' % (src, why, mout[-250:]),
+                                {'kind': 'location', 'backend': 'make', 'srcdir': src, 'why': why, 'make_output': mout[-800:]},
+                                classes=('make-srcdir-location-special',) if special else ())
+        finally:
+            shutil.rmtree(root, ignore_errors=True)
+    rep.stage('system location', chars=len(chars), failures=bad)
+    return bad
+
+
 def stage_call_names(rep, rng, names):
     """The name as an argument of $(call RULE,...) (link inputs, multi-output parameters): the real Makefile writer
     (define + Call), the real make, the recorder. The guard of C01_call_arg (no comma outside parentheses, balanced
@@ -660,6 +732,7 @@ def run(rep):
     found += stage_call_names(rep, rng, names if thorough else names[1::3])
     found += stage_ninja(rep, rng, names)
     found += stage_system_names(rep, rng, thorough)
+    found += stage_system_location(rep, rng, thorough)
     if dis and not rep.n_with_input:
         i, call, iv, mv = dis[0]
         rep.fail('W:%s - model and implementation disagree (%d cases), e.g. %r: impl %r, model %r' % (
